@@ -104,6 +104,9 @@ func cmdRun(args []string) {
 	}
 	rep := eng.Explore(h, 0, 0)
 	rep.Funcs = nil
+	rep.Unsupported = uniq(rep.Unsupported)
+	rep.Inconclusive = uniq(rep.Inconclusive)
+	rep.BudgetFails = uniq(rep.BudgetFails)
 	if len(rep.Violations) > 3 {
 		rep.Violations = rep.Violations[:3]
 	}
